@@ -38,6 +38,12 @@ CHECKS = {
  "C06": dict(cat="exploration", technique="exhaustive enumeration of wrapper stacks x contexts x accepted vectors (token tree) x every invalid replacement of every typed value, and removal of the item; outcomes and message text checked on the real parser",
    text="A typed u32 primitive (FromStr, .parse, guard, positional, env-backed) under every type-correct wrapper stack of depth <=3 in four contexts; every accepted vector gets each typed value replaced by six kinds of invalid text (must fail on stderr carrying the conversion/guard message) and the item removed (value iff the stack defaults).",
    note="Nothing is demanded under catch; message text is not demanded inside an alternative (as the property says).", ref="4/C06"),
+ "C12": dict(cat="exploration", technique="exhaustive enumeration of definition tuples x command levels; help text tokenised and compared with an independent visibility calculator; acceptance of shown names searched on the level's own parser",
+   text="Every ordered tuple of <=3 distinct fields from 15 documented kinds x 6 tails x 4 option-level configurations (17736 definitions, every command level): each visible item has exactly one row with first names, metavariable and first help paragraph; hidden items, alias names and hidden commands never appear; hide_usage/custom_usage on any field leave everything after the usage block byte-identical; description, usage, header, lists, footer in order; every shown name is accepted by that level's parser.",
+   note="Trusted: the visibility calculator (vis.rs). Row matching assumes the family's short help texts (no wrapping at width 100).", ref="4/C12"),
+ "C13": dict(cat="exploration", technique="exhaustive enumeration of fragment concatenations x layout skeletons x widths; renderings compared with the unwrapped rendering and with the first-paragraph variant of the same definition",
+   text="12 layout skeletons with the text slot ranging over every concatenation of <=3 (thorough 4) fragments from 13 (long word, breaks, blank lines, code line, non-ASCII, tab, NBSP, ESC, dashes), each rendered at every width 1..100(300): identical content modulo whitespace, width respected from 40 columns up with the documented exemptions, short help equals the full help of the first-paragraph variant.",
+   note="Widths above 300 other than 65535 are not explored; error documents are those of one rejected vector per skeleton.", ref="4/C13"),
 }
 NOT_YET = {}
 def main():
